@@ -28,12 +28,32 @@ func (r *rwRT) ruleCloseContract() {
 	c.fn(relName(fn))
 	pos := r.w.FnPos(fn)
 	kindDelay := r.kindConst("kindDelay")
+	type listForm struct {
+		n    int
+		last string // syntactic kind of the last statement: the decisions must not depend on what comes next
+	}
+	var forms []listForm
 	for _, n := range []int{0, 1, 2, 3} {
+		forms = append(forms, listForm{n, "expr"})
+		if n >= 2 {
+			forms = append(forms, listForm{n, "break"}, listForm{n, "continue"}, listForm{n, "return"})
+		}
+	}
+	for _, lf := range forms {
+		n := lf.n
 		for _, childKind := range []string{"kindDelay", "kindIf"} {
 			st := newState()
 			var elems []AV
 			for i := 0; i < n; i++ {
 				elems = append(elems, Dyn{T: r.astPtr("ExprStmt"), V: leafSym(fmt.Sprintf("s%d", i))})
+			}
+			switch lf.last {
+			case "break", "continue":
+				_, br := r.heapNode(st, "BranchStmt", map[string]AV{"Tok": r.tokConst(strings.ToUpper(lf.last)), "Label": Nil{}})
+				elems[n-1] = br
+			case "return":
+				_, rt := r.heapNode(st, "ReturnStmt", map[string]AV{"Results": SliceV{}})
+				elems[n-1] = rt
 			}
 			children := st.alloc(&Obj{Kind: 's', Opaque: "children", Fields: map[string]AV{"kind": r.kindConst(childKind)}})
 			in := r.interp(rwConfig{root: fn, blockOracles: true, boundaries: map[string]bool{"rewriteStmts": false, "generateLastNormalIfNecessary": true, "combineIfNecessary": true}})
@@ -128,10 +148,10 @@ func (r *rwRT) ruleCloseContract() {
 				}
 			}
 			if n >= 2 {
-				c.check(combineBad == "", "RW.CLOSE", fmt.Sprintf("combine decision between statements [%d stmt(s), block kind %s]", n, childKind), pos,
+				c.check(combineBad == "", "RW.CLOSE", fmt.Sprintf("combine decision between statements [%d stmt(s), last is %s, block kind %s]", n, lf.last, childKind), pos,
 					"between two statements of a list combineIfNecessary is always applied to the block the first one handed back", combineBad)
 			}
-			c.check(bad == "", "RW.CLOSE", fmt.Sprintf("rewriteStmts contract [%d stmt(s), block kind %s]", n, childKind), pos,
+			c.check(bad == "", "RW.CLOSE", fmt.Sprintf("rewriteStmts contract [%d stmt(s), last is %s, block kind %s]", n, lf.last, childKind), pos,
 				"at the end of a statement list the block returned by the last rewriteStmt call — the one still open — is closed when it is a thunk body; no other block is touched", bad)
 		}
 	}
